@@ -179,6 +179,12 @@ impl<T: El> SetWorld<T> {
             }
             4 => all.into_iter().filter(|k| k % 2 == 0).collect(),
             5 => all.into_iter().filter(|k| k % 3 == 0).collect(),
+            10 => {
+                let d = self.dump();
+                let old = Self::old_ids(&d);
+                let last = self.classes().old_last;
+                all.into_iter().filter(|k| !old.contains(k) || Some(*k) == last).collect()
+            }
             6 => all.into_iter().filter(|&q| q == T::norm(key)).collect(),
             _ => all.into_iter().filter(|&q| q != T::norm(key)).collect(),
         }
